@@ -284,8 +284,8 @@ var def = pbt.Def[Case]{Name: "message-roundtrip", Gen: gen, Run: judge}
 var defExt = pbt.Def[ExtCase]{Name: "extension-codecs", Gen: genExt, Run: judgeExt}
 
 func TestProp(t *testing.T) {
-	pbt.Check(t, run, def, 8000, 2000000)
-	pbt.Check(t, run, defExt, 3000, 500000)
+	pbt.Check(t, run, def, 8000, 1000000)
+	pbt.Check(t, run, defExt, 3000, 300000)
 }
 
 func TestReplay(t *testing.T) {
